@@ -49,6 +49,7 @@ type storeRec struct {
 
 // VC accumulates the verification condition of one top-level function.
 type VC struct {
+	noRebase  bool
 	nameWraps bool
 	binderTyping bool
 	binderFacts [][]string
@@ -63,6 +64,10 @@ type VC struct {
 	strLits   map[string]string
 	typeTags  map[string]int
 	freshRefs map[string]bool
+	regionIDs  map[string]int    // H4 patch (allocset.go)
+	regionSets []map[string]bool // H4 patch (allocset.go)
+	ownRefs   []string // references allocated by the function under verification, in order
+	ownRefReach []string // path condition at each of those allocations
 	storeLog  []storeRec
 	logStores bool
 	dry       int
@@ -92,7 +97,7 @@ type VC struct {
 }
 
 func NewVC(eng *Engine, fn *ssa.Function) *VC {
-	return &VC{nameWraps: os.Getenv("GCV_NAMEWRAPS") != "0", binderTyping: os.Getenv("GCV_BINDERTYPING") != "0", eng: eng, fn: fn, heapSorts: map[string]string{}, declared: map[string]bool{}, notes: map[string]bool{},
+	return &VC{noRebase: os.Getenv("GCV_REBASE") == "0", nameWraps: os.Getenv("GCV_NAMEWRAPS") != "0", binderTyping: os.Getenv("GCV_BINDERTYPING") != "0", eng: eng, fn: fn, heapSorts: map[string]string{}, declared: map[string]bool{}, notes: map[string]bool{},
 		strLits: map[string]string{}, typeTags: map[string]int{}, freshRefs: map[string]bool{}, specFoot: map[string][]string{},
 		specDecl: map[string]bool{}, recSpec: map[string]bool{}, safetyCount: map[string]int{}, ufDecl: map[string]bool{}, unfolded: map[string]bool{}}
 }
@@ -334,6 +339,9 @@ func (vc *VC) heap(st *State, name, sort string) string {
 		if name == "$alloc" {
 			vc.assert(le("1", n))
 		}
+		if name == "$region" { // H4 patch: no typed region at entry
+			vc.assert(eq(n, "((as const (Array Int Int)) 0)"))
+		}
 		// the nil map is empty; a map of length 0 has no key
 		if strings.HasPrefix(name, "Md|") && strings.HasPrefix(sort, "(Array Int (Array ") && strings.HasSuffix(sort, " Bool))") {
 			ks := strings.TrimSuffix(strings.TrimPrefix(sort, "(Array Int (Array "), " Bool))")
@@ -348,6 +356,12 @@ func (vc *VC) heap(st *State, name, sort string) string {
 			ks := strings.TrimSuffix(strings.TrimPrefix(sort, "(Array Int (Array "), " Int))")
 			a0 := vc.heap(&State{heaps: map[string]string{}}, "$alloc", "Int")
 			vc.emit(fmt.Sprintf("(assert (forall ((qa Int) (qk %s)) (! (=> (< qa %s) (< (select (select %s qa) qk) %s)) :pattern ((select (select %s qa) qk)))))", ks, a0, n, a0, n))
+		}
+		// H4 patch (see newRef): a heap first mentioned after some allocations of this function is still untouched there
+		if z := zeroOfSimpleHeap(name, sort); z != "" {
+			for i, r := range vc.ownRefs {
+				vc.assert(implies(vc.ownRefReach[i], eq(sel(n, r), z)))
+			}
 		}
 		// heap closedness: every reference stored in the entry heap is below the entry allocation pointer
 		if isRefHeap(name) {
@@ -376,7 +390,41 @@ func (vc *VC) newRef(st *State) string {
 	r := vc.define("ref", "Int", a)
 	st.heaps["$alloc"] = vc.define("alloc", "Int", plus(a, "1"))
 	vc.freshRefs[r] = true
+	// H4 patch: Go hands out zeroed memory. The reference r is new, so in every struct-field heap (of whatever type) the
+	// slot r has never been written: state that it holds the zero value. Without this a map/slice/other-type object
+	// allocated by the function under verification looks like an arbitrary T to `forall(func(x *T) ...)`.
+	var hn []string
+	for name := range vc.heapSorts {
+		hn = append(hn, name)
+	}
+	sort.Strings(hn)
+	// (conditional on the path: on another path the same reference number may be handed out by a callee)
+	reachHere := st.reach
+	if reachHere == "" {
+		reachHere = "true"
+	}
+	for _, name := range hn {
+		if z := zeroOfSimpleHeap(name, vc.heapSorts[name]); z != "" {
+			vc.assert(implies(reachHere, eq(sel(vc.heap(st, name, vc.heapSorts[name]), r), z)))
+		}
+	}
+	vc.ownRefs = append(vc.ownRefs, r)
+	vc.ownRefReach = append(vc.ownRefReach, reachHere)
 	return r
+}
+
+// zeroOfSimpleHeap: the zero term of a struct-field heap with scalar leaves ("" for other heaps).
+func zeroOfSimpleHeap(name, sort string) string {
+	if !(strings.HasPrefix(name, "H|") || strings.HasPrefix(name, "C|")) {
+		return ""
+	}
+	switch sort {
+	case "(Array Int Int)":
+		return "0"
+	case "(Array Int Bool)":
+		return "false"
+	}
+	return ""
 }
 
 func leafHeapName(p Ptr, leafPath string) string {
@@ -1017,6 +1065,9 @@ func (vc *VC) mapLookup(st *State, ref string, m *types.Map, key Val) (Val, stri
 	ks := mapKeySort(m)
 	k := flat(key)[0]
 	dom := sel(vc.mapDom(st, ref, m), k)
+	if isRefType(m.Key()) && ks == "Int" {
+		vc.keyAllocAxiom(st, m)
+	}
 	var ts []string
 	for _, l := range leaves(m.Elem()) {
 		hn := "Mv|" + canon(m) + "|" + l.Path
@@ -1254,4 +1305,26 @@ func parseExprString(s string) (ast.Expr, error) { return parser.ParseExpr(s) }
 
 func (e *Engine) srcTextExpr(x ast.Expr) string {
 	return types.ExprString(x)
+}
+
+// keyAllocAxiom: heap closedness for the KEYS of maps keyed by references: every key of an allocated map is below the
+// allocation pointer (entry version: always, like the other entry closedness axioms; later versions: with
+// `option heap-closedness`). Needed so that `forall(func(c *T) ...)`, which ranges over allocated objects, covers map keys.
+func (vc *VC) keyAllocAxiom(st *State, m *types.Map) {
+	name := "Md|" + canon(m)
+	h := vc.heap(st, name, arraySort("Int", arraySort("Int", "Bool")))
+	a := vc.allocOf(st)
+	if !strings.HasSuffix(h, "@0|") && !vc.closedness {
+		return
+	}
+	if strings.HasSuffix(h, "@0|") {
+		a = vc.heap(&State{heaps: map[string]string{}}, "$alloc", "Int")
+	}
+	key := "keyallocax|" + h + "|" + a
+	if vc.declared[key] {
+		return
+	}
+	vc.declared[key] = true
+	r := sel2(h, "ax_o", "ax_k")
+	vc.assert(forall([][2]string{{"ax_o", "Int"}, {"ax_k", "Int"}}, "(! "+implies(and(lt("ax_o", a), r), lt("ax_k", a))+" :pattern ("+r+"))"))
 }
